@@ -193,6 +193,37 @@ def sampler_oracle(case):
     return None
 
 
+def large_sampler_oracle(case):
+    """the inclusion law on datasets far larger than the correspondence uses (around 2^16, 2^20, 2^21 – sizes at which an
+    implementation that draws its uniforms in pieces would start to differ): i is in batch b iff the reproduced u[b][i] < q,
+    for EVERY position up to the last one.  Real sampler against the statement's definition, no model."""
+    from opacus.utils.uniform_sampler import DistributedUniformWithReplacementSampler, UniformWithReplacementSampler
+    N, seed, q, steps = case["N"], case["seed"], case["q"], case["steps"]
+    g = torch.Generator().manual_seed(seed)
+    clone = torch.Generator()
+    if case["oracle"] == "large-sampler-dist":
+        smp = DistributedUniformWithReplacementSampler(total_size=N, sample_rate=q, shuffle=False, generator=g, steps=steps)
+        clone.set_state(g.get_state())
+        base = torch.arange(smp.rank, N, smp.num_replicas)
+        n_local = len(base)
+    else:
+        smp = UniformWithReplacementSampler(num_samples=N, sample_rate=q, generator=g, steps=steps)
+        clone.set_state(g.get_state())
+        base, n_local = None, N
+    got = [list(b) for b in smp]
+    if len(got) != steps:
+        return (f"C09:sampler:epoch-length:N={N}", f"{case}: delivered {len(got)} batches for steps={steps}", {})
+    for b, idx in enumerate(got):
+        pos = (torch.rand(n_local, generator=clone) < q).nonzero(as_tuple=False).reshape(-1)
+        want = (pos if base is None else base[pos]).tolist()
+        if idx != want:
+            missing = sorted(set(want) - set(idx))[:5]
+            extra = sorted(set(idx) - set(want))[:5]
+            return ("C09:sampler:inclusion-law:large-dataset", f"{case}: batch {b} has {len(idx)} indices, the positions with u < q are {len(want)}; "
+                    f"first missing {missing}, first unexpected {extra} (largest delivered index {max(idx) if idx else None}, N-1 = {N - 1})", {})
+    return None
+
+
 def dist_correspondence(ctx, cases, variant):
     lines, index, runs = [], [], []
     for ci, c in enumerate(cases):
@@ -375,6 +406,11 @@ def run(ctx):
         c = gen_sampler_case(rng)
         ctx.count("search:sampler")
         report(ctx, sampler_oracle(c), c)
+    # every run: the inclusion law on large datasets (just above 2^16, 2^20, 2^21 and one random size), both samplers
+    for i, N in enumerate([(1 << 16) + 1 + rng.randrange(500), (1 << 20) + 1 + rng.randrange(5000), (1 << 21) + 1 + rng.randrange(5000), rng.randrange(1 << 18, 3 << 20)][: ctx.n(4, 4)]):
+        c = {"oracle": "large-sampler", "N": N, "seed": rng.randrange(2**31), "q": 400.0 / N, "steps": 2}
+        ctx.count("search:sampler:large-dataset")
+        report(ctx, large_sampler_oracle(c), c)
     for _ in range(ctx.n(60, 1000)):
         c = gen_dist_case(rng)
         ctx.count("search:dist")
@@ -401,7 +437,9 @@ def run(ctx):
 
 def replay(ctx, rp):
     c = rp.get("failing_input") or rp.get("case")
-    if c.get("oracle") == "loader-dist":
+    if str(c.get("oracle", "")).startswith("large-sampler"):
+        res = large_sampler_oracle(c)
+    elif c.get("oracle") == "loader-dist":
         res = R.loader_dist_oracle(c)
     elif c.get("oracle") == "live-iterators":
         res = R.live_iterators_oracle(c)
